@@ -15,7 +15,17 @@ PROP = {'counts': {'quick': 200, 'thorough': 5000},
          'no early end inside both limits, a Begin that reported an error leaves no live transaction, final '
          'probe, data = acknowledged commits, one applied batch per commit, manager counters balanced); '
          'non-trivial = at least one Begin had to wait, one call after the end, and one time-out or '
-         'server-side cleanup (racing cases: both outcomes occurred); distinct by case text',
+         'server-side cleanup (racing cases: both outcomes occurred); distinct by case text.'
+         ' Added later: one-shot service calls (BatchWrite) — the transactions the service begins, uses and '
+         'ends by ITSELF inside one call: line `oneshot C ok|del|emptykey|longkey|badtype|bigvalue K V` (svc=1) '
+         'calls the real BatchWrite over the in-process connection when the lock is free (else `R C busy`, '
+         'the real call would wait uninterruptibly), with one valid put/delete or a valid put followed by an '
+         'operation the service rejects (empty key, 4097-byte key, unknown operation type, value of 10 MiB + '
+         '1); the answer (ok / invalid / fail by injected ApplyBatch failure), the lock state and the registry '
+         'size are compared with the model event EOneShot; oracle independent of the model: once the call has '
+         'returned the lock is free again and the registered transactions are unchanged, and the call returns '
+         'within 5 s (a handler found parked in a lock or asleep after 5 s is a failure; one in a system call '
+         'is the machine: timing ambiguity)',
  'assumptions': ['time is logical in the model and MEASURED in the harness: before each line the harness notes the '
                  'milliseconds since the start of the case (after waiting out any Begin deadline closer than 60 '
                  'ms x scale) and the model runner moves the model clock to that instant; limits of the header '
